@@ -6,6 +6,9 @@ pub mod anyhow {
     #[verifier::external_body]
     pub struct Error { _p: () }
     pub type Result<T, E = Error> = core::result::Result<T, E>;
+    // R8: anyhow!(..) / bail!(..): some error value; its message is not part of any property
+    #[verifier::external_body]
+    pub fn __opaque_error() -> Error { unimplemented!() }
 }
 use anyhow::Result;
 
